@@ -12,6 +12,7 @@ import (
 	"encoding/json"
 	"fmt"
 	"io"
+	"math"
 	"os"
 	"os/exec"
 	"sync"
@@ -375,6 +376,10 @@ func (t *stdioClientTransport) handleResponse(rawMessage json.RawMessage) {
 	case int64:
 		reqID = id
 	case float64:
+		if id != math.Trunc(id) {
+			t.logger.Errorf("Invalid response ID (not an integer): %v", id)
+			return
+		}
 		reqID = int64(id)
 	case int:
 		reqID = int64(id)
@@ -434,6 +439,10 @@ func (t *stdioClientTransport) handleErrorResponse(rawMessage json.RawMessage) {
 	case int64:
 		reqID = id
 	case float64:
+		if id != math.Trunc(id) {
+			t.logger.Errorf("Invalid response ID (not an integer): %v", id)
+			return
+		}
 		reqID = int64(id)
 	case int:
 		reqID = int64(id)
